@@ -16,7 +16,9 @@ OPERANDS = ["a", "'lit'", "42", "f()", "o.p", "o[k]", "(a)", "('x' + 'y')", "'x'
             # identifiers and literals that end in a multi-byte character (the last byte of the operation is not a character boundary)
             "\u00e9", "x\u4727", "o.\u00e9", "'\u00e9'", "f\u00e9()", "`t${\u00e9}`", "1n", "/re/\u0075"]
 ARG_LISTS = ["", "a", "'lit'", "a, b", "f(), b", "...r", "a, ...r", "...r, ...q", "[a, b]", "[[x, y], z]", "a, , b".replace(", ,", ", undefined,"),
-             "'l1', 'l2'", "a + b, `t${x}`", "o.p, o[k]", "...'lit'", "(a, b)", "x = y", "a?.b", "() => a + b"]
+             "'l1', 'l2'", "a + b, `t${x}`", "o.p, o[k]", "...'lit'", "(a, b)", "x = y", "a?.b", "() => a + b",
+             # what is spread: a call, an array literal, a member, a conditional, a new expression, a template, an await-free sequence
+             "...f()", "...[a, b]", "a, ...o.list()", "...(c ? r : q)", "...new F(a)", "...o.p, b", "...`t${a}`", "...[...r, a]", "...(a, r)", "...r.slice(1)"]
 ARRAYS = ["[a, b]", "[]", "[a]", "['l1', 'l2']", "[a, , b]", "[...r]", "[a, ...r]", "[[x, y], z]", "[f(), g()]", "[, a]", "arr", "f()", "...r", "[a + b]", "['x' + 'y', a]"]
 RECEIVERS = ["a", "'lit'", "f()", "o.p", "o.prototype", "o[k]", "(a)", "[a, b]", "this", "`t${a}`", "a.trim()", "o.p.q", "new F()", "42", "a?.b", "super.x",
              # member paths that merely pass through (or start at) something called prototype
@@ -136,6 +138,7 @@ def operations(rng, reserved=None):
                                            "o[k.p]", "o[typeof k]", "o[!k]", "o[~k]", "o[k - 1]", "o[(k, 1)]", "o[k?.p]", "o.p[-k].q", "o[k][-i]", "o[-1]", "o['lit']", "o[f()].p[g()]",
                                            "f()[g(a)]", "o.p[f()]", "g(a)[k + 1]", "f()[o.p]", "o.q.r[g(b)]", "f().p[g(a)]", "(a, o)[f()]", "o[f()][g(a)]",
                                            "((o.p))", "(((x)))", "((o[k]))", "((o).p)", "((f().p))",
+                                           "x[(x = y, 'p')]", "o[f(o = a)]", "this[(f(), 'v')]", "x[`${(x = y, k)}`]",
                                            # an instrumented operation in the key of a link that is not the last one
                                            "o[a + b].p", "this.cache[k.trim()].buf", "o[`${k}`].p.q", "o[a + b][k + 1]", "o.p[x.concat(y)].q", "this[a + b].v", "o[k.trim()][i]"]), o()),
         lambda: "`%s${%s}%s`" % (rng.choice(["", "p"]), o(), rng.choice(["", "q"])),
@@ -144,6 +147,7 @@ def operations(rng, reserved=None):
         lambda: "%s?.%s(%s)" % (par(rng.choice(RECEIVERS)), rng.choice(METHODS), rng.choice(ARG_LISTS)),
         lambda: "%s?.p.%s(%s)" % (par(rng.choice(RECEIVERS)), rng.choice(METHODS), rng.choice(ARG_LISTS)),
         lambda: "%s.%s?.(%s)" % (par(rng.choice(RECEIVERS)), rng.choice(METHODS), rng.choice(ARG_LISTS)),
+        lambda: "%s?.(%s).%s(%s)" % (rng.choice(["super.m", "(super.m)", "super[k]", "super.m.n", "o.m", "(o.m)", "o?.m", "f", "o[k]", "new.target"]), rng.choice(ARG_LISTS), rng.choice(METHODS), rng.choice(ARG_LISTS)),
         lambda: "%s?.%s(%s)?.%s(%s)" % (par(rng.choice(RECEIVERS)), rng.choice(METHODS), rng.choice(ARG_LISTS), rng.choice(METHODS), rng.choice(ARG_LISTS)),
         lambda: "%s.prototype.%s.call(%s%s)" % (rng.choice(["String", "o", "f()"]), rng.choice(METHODS[:7]), rng.choice(THIS_ARGS),
                                                   rng.choice(["", ", " + rng.choice(ARG_LISTS[1:])])),
